@@ -202,6 +202,15 @@ def brokerOpCore (st : BkState) (impl : String) : List String → Option (BkStat
     if st.closedSeen.contains n || !(st.order.contains n) then some (st, "no-conn", "ok", "-") else
     let (st, out) := stepSearch st (.drop n) impl none [n]
     some (st, out, "ok", "-")
+  | ["bk.drophold", n] => do
+    let n ← n.toNat?
+    if st.closedSeen.contains n || !(st.order.contains n) then some (st, "no-conn", "ok", "-") else
+    let (st, out) := stepSearch st (.dropHold n) impl none [n]
+    some (st, out, "ok", "-")
+  | ["bk.release", n] => do
+    let n ← n.toNat?
+    let (st, out) := stepSearch st (.release n) impl none
+    some (st, out, "ok", "-")
   | ["bk.tick", kind, d] => do
     let (st, out) := stepSearch st (.tick kind (NOW + (← d.toInt?))) impl none
     some (st, out, "ok", "-")
